@@ -141,6 +141,19 @@ func Load(dir, goos, goarch string) (*Prog, error) {
 			p.InlineNotes = append(p.InlineNotes, "codec normalisation was attempted but the rewritten program does not type-check ("+firstLine(err2.Error())+"); analysing the original program")
 		}
 	}
+	if ov, notes := p.getterOverlay(); len(ov) > 0 {
+		for k, v := range p.Overlay {
+			if _, dup := ov[k]; !dup {
+				ov[k] = v
+			}
+		}
+		if p2, err2 := loadWith(dir, goos, goarch, ov); err2 == nil {
+			p2.InlineNotes = append(append([]string{}, p.InlineNotes...), notes...)
+			p = p2
+		} else {
+			p.InlineNotes = append(p.InlineNotes, "getter normalisation was attempted but the rewritten program does not type-check ("+firstLine(err2.Error())+"); analysing the original program")
+		}
+	}
 	if ov, notes := p.drainLoopOverlay(); len(ov) > 0 {
 		for k, v := range p.Overlay {
 			if _, dup := ov[k]; !dup {
